@@ -44,6 +44,8 @@ type c04branch struct {
 	bws     *zapcore.BufferedWriteSyncer
 	closeFn func()
 	flaky   bool // its device fails from some call on: not judged, but the other branches must not suffer
+	shares  int  // kind 5: index of the Lock(sink) branch whose locked syncer this branch writes to as well (-1 none)
+	shared  bool // another branch writes to this branch's locked syncer too
 	core    zapcore.Core
 	// reference
 	refBuf  *bytes.Buffer
@@ -291,7 +293,17 @@ func runC04(c *Ctx) {
 	var tickers []*zapcore.BufferedWriteSyncer
 	bufSize := 0
 	for b := 0; b < nBranch; b++ {
-		br := &c04branch{level: stdLevels[g.Weighted(4, 2, 2, 1)], console: g.Chance(4), kind: g.Draw(5)}
+		br := &c04branch{level: stdLevels[g.Weighted(4, 2, 2, 1)], console: g.Chance(4), kind: g.Draw(6), shares: -1}
+		if br.kind == 5 {
+			// needs an earlier Lock(sink) branch to share with
+			br.kind = 0
+			for pi, pb := range branches {
+				if pb.kind == 0 && !pb.flaky {
+					br.kind, br.shares = 5, pi
+					break
+				}
+			}
+		}
 		mk := func(name string) *zsim.SimSink {
 			s := simSinkFor(r, g, name, frag)
 			br.sinks = append(br.sinks, s)
@@ -317,6 +329,12 @@ func runC04(c *Ctx) {
 			br.ws, br.closeFn = ws, cl
 		case 3:
 			br.ws = zap.CombineWriteSyncers(mk(fmt.Sprintf("b%d-0", b)), mk(fmt.Sprintf("b%d-1", b)))
+		case 5:
+			// one locked syncer reached on two paths: directly (the other
+			// branch) and as a member of this branch's combined syncer
+			other := branches[br.shares]
+			other.shared = true
+			br.ws = zap.CombineWriteSyncers(mk(fmt.Sprintf("b%d", b)), other.ws)
 		case 4:
 			size := pick(g, 16, 32, 64, 128, 256)
 			bufSize = size
@@ -334,7 +352,7 @@ func runC04(c *Ctx) {
 	}
 	if len(branches) >= 2 && c.F.Chance(5) {
 		fb := branches[c.F.Draw(len(branches))]
-		if fb.bws == nil {
+		if fb.bws == nil && !fb.shared && fb.shares < 0 {
 			fb.flaky = true
 			for _, s := range fb.sinks {
 				s.FailFrom = 1 + c.F.Draw(4)
@@ -391,7 +409,7 @@ func runC04(c *Ctx) {
 	}
 	var desc []string
 	for b, br := range branches {
-		desc = append(desc, fmt.Sprintf("branch%d{>=%s console=%v stack=%s}", b, br.level, br.console, []string{"Lock(sink)", "Open(1)", "Open(2)", "Combine(2)", "Buffered"}[br.kind]))
+		desc = append(desc, fmt.Sprintf("branch%d{>=%s console=%v stack=%s}", b, br.level, br.console, []string{"Lock(sink)", "Open(1)", "Open(2)", "Combine(2)", "Buffered", "Combine(own, the Lock(sink) of an earlier branch)"}[br.kind]))
 	}
 	c.Describe("%s frag=%d pool=%d tasks=%d syncTask=%v ticks<=%d caller=%v sharedDerived=%v policy=%s", strings.Join(desc, " "), frag, poolPol, nTasks, syncTask, tickBudget, withCaller, shared, r.Policy)
 	for t, tk := range tasks {
@@ -485,9 +503,11 @@ func runC04(c *Ctx) {
 
 	// ---- reference: the same calls, sequentially, on private sinks ----
 	simsync.SetPolicy(simsync.PoolFresh, 1, 0)
+	expects := make([]map[string]*c04call, len(branches))
 	for bi, br := range branches {
 		refBase := zap.New(br.refCore, lopts...)
 		expect := map[string]*c04call{} // reference line -> call
+		expects[bi] = expect
 		for t, tk := range tasks {
 			tl := c04derive(refBase, tk.variant, t)
 			if shared {
@@ -511,14 +531,67 @@ func runC04(c *Ctx) {
 				expect[line] = call
 			}
 		}
+	}
+	for bi, br := range branches {
 		for _, sink := range br.sinks {
 			if br.flaky {
 				continue
 			}
-			c04judge(c, bi, sink, expect, len(tasks))
+			if br.shared {
+				// the device behind the shared locked syncer holds the lines of
+				// its own branch and those of every branch combining it
+				ex := []map[string]*c04call{expects[bi]}
+				for oi, ob := range branches {
+					if ob.shares == bi {
+						ex = append(ex, expects[oi])
+					}
+				}
+				c04judgeShared(c, bi, sink, ex)
+			} else {
+				c04judge(c, bi, sink, expects[bi], len(tasks))
+			}
 			if r.Failed() {
 				return
 			}
+		}
+	}
+}
+
+// c04judgeShared: a sink written by several branches holds exactly the lines
+// of all of them, each as often as branches produce it, intact.
+func c04judgeShared(c *Ctx, bi int, sink *zsim.SimSink, expects []map[string]*c04call) {
+	want := map[string]int{}
+	for _, ex := range expects {
+		for line := range ex {
+			want[line]++
+		}
+	}
+	got := map[string]int{}
+	rest := string(sink.Data)
+	ln := 0
+	for len(rest) > 0 {
+		i := strings.IndexByte(rest, '\n')
+		if i < 0 {
+			c.Fail("C04: the sink stream ends in an incomplete line", "branch %d sink %s (shared): trailing %q", bi, sink.Name, clipS(rest))
+			return
+		}
+		line := rest[:i+1]
+		rest = rest[i+1:]
+		ln++
+		if want[line] == 0 {
+			c.Fail("C04: a sink line is not the intact line of any issued entry (torn, merged, corrupted or foreign)", "branch %d sink %s (shared by %d branches) line %d: %q", bi, sink.Name, len(expects), ln, clipS(line))
+			return
+		}
+		got[line]++
+		if got[line] > want[line] {
+			c.Fail("C04: an entry reached a sink twice", "branch %d sink %s (shared): %q", bi, sink.Name, clipS(line))
+			return
+		}
+	}
+	for line, n := range want {
+		if got[line] != n {
+			c.Fail("C04: an accepted entry never reached a sink of an enabled branch", "branch %d sink %s (shared by %d branches): %q found %d times, expected %d; sink has %d lines", bi, sink.Name, len(expects), clipS(line), got[line], n, ln)
+			return
 		}
 	}
 }
